@@ -41,7 +41,7 @@ fn root() -> String {
 }
 
 fn families() -> Vec<Box<dyn DynFamily>> {
-    vec![Box::new(fam::a1::A1), Box::new(fam::a2::A2), Box::new(fam::a3::A3), Box::new(fam::a4::A4), Box::new(fam::a5::A5), Box::new(fam::a6::A6), Box::new(fam::a7::A7)]
+    vec![Box::new(fam::a1::A1), Box::new(fam::a2::A2), Box::new(fam::a3::A3), Box::new(fam::a4::A4), Box::new(fam::a5::A5), Box::new(fam::a6::A6), Box::new(fam::a7::A7), Box::new(fam::a8::A8), Box::new(fam::a9::A9 { locked: true }), Box::new(fam::a9::A9 { locked: false })]
 }
 
 fn level_of(prop: &str) -> &'static str {
@@ -149,6 +149,7 @@ fn cmd_check(args: &[String]) -> i32 {
     let mut n_known = 0usize;
     let mut replay_n = 0usize;
     let mut known_hits: BTreeMap<usize, usize> = BTreeMap::new();
+    let mut viol_totals: BTreeMap<String, u64> = BTreeMap::new();
     for f in &fams {
         let count = count_override.unwrap_or_else(|| f.budget(tier, &prop));
         if count == 0 {
@@ -166,10 +167,13 @@ fn cmd_check(args: &[String]) -> i32 {
         let tf = std::time::Instant::now();
         let agg = f.run(&cfg);
         let fam_wall = tf.elapsed().as_secs_f64();
-        // determinism self-check: a slice of this batch again, other worker count, same hashes
-        let dn = count.min(48);
-        let d1 = f.run(&RunCfg { count: dn, workers: 1, max_violations: 0, property: prop.clone(), ..RunCfg { seed, tier, property: String::new(), workers: 1, count: dn, max_violations: 0, wall_limit_s: 600.0 } });
-        let d2 = f.run(&RunCfg { count: dn, workers: workers.max(2), max_violations: 0, property: prop.clone(), ..RunCfg { seed, tier, property: String::new(), workers: 1, count: dn, max_violations: 0, wall_limit_s: 600.0 } });
+        // determinism self-check: a slice of this batch again at two other worker counts, same
+        // hashes; the slice is sized to cost a few seconds at most
+        let cpu_per_scn = fam_wall * workers as f64 / agg.base_scenarios.max(1) as f64;
+        let dn = count.min(48).min(((4.0 * workers as f64 / 2.0) / cpu_per_scn.max(1e-6)) as u64).max(2).min(count);
+        let dcfg = |w: usize| RunCfg { seed, tier, property: prop.clone(), workers: w, count: dn, max_violations: 0, wall_limit_s: 600.0 };
+        let d1 = f.run(&dcfg((workers / 2).max(1)));
+        let d2 = f.run(&dcfg(workers.max(2)));
         if d1.hash_sum != d2.hash_sum || d1.evaluations != d2.evaluations {
             eprintln!(
                 "harness error: determinism self-check failed for family {} ({} runs: {:016x}/{} vs {:016x}/{})",
@@ -213,6 +217,9 @@ fn cmd_check(args: &[String]) -> i32 {
         }));
         // violations: known-finding match, else minimise + replay file
         let mut seen_oracles: BTreeMap<String, usize> = BTreeMap::new();
+        for (k, v) in &agg.viol_counts {
+            *viol_totals.entry(format!("{}/{}", f.name(), k)).or_insert(0) += *v;
+        }
         for (_, scn, v, _h) in &agg.violations {
             if let Some(ki) = known.iter().position(|k| k.property == v.property && (k.oracle.is_empty() || k.oracle == v.oracle) && v.detail.contains(&k.contains)) {
                 *known_hits.entry(ki).or_insert(0) += 1;
@@ -222,8 +229,8 @@ fn cmd_check(args: &[String]) -> i32 {
             let c = seen_oracles.entry(v.oracle.clone()).or_insert(0);
             *c += 1;
             n_viol += 1;
-            if *c > 2 || replay_n >= 6 {
-                continue; // enough replay files for this oracle
+            if *c > 1 || replay_n >= 12 {
+                continue; // one minimised replay file per failing oracle clause
             }
             let (min_scn, min_v, min_hash, execs) = match f.minimise(scn, v, 300) {
                 Ok(x) => x,
@@ -256,6 +263,9 @@ fn cmd_check(args: &[String]) -> i32 {
         }
     }
     let wall = t0.elapsed().as_secs_f64();
+    for (k, n) in &viol_totals {
+        println!("  oracle hits (including known findings): {} x{}", k, n);
+    }
     for (ki, n) in &known_hits {
         println!("KNOWN-FINDING: property={} {} [oracle {}; seen in {} executions of this run]", known[*ki].property, known[*ki].what, known[*ki].oracle, n);
     }
